@@ -110,7 +110,7 @@ class Tracer:
             for i, c in enumerate(kids):
                 cn = fn.n(c)
                 if cn["k"] == "IfStmt" and cn.get("else") is None and not cn.get("constexpr") and self._ends_in_return(fn, cn["then"]):
-                    # early return: everything after it happens only when the condition is false
+                    # early return (or `continue` in a loop body): everything after it happens only when the condition is false
                     pre = self.expr_tokens(fn, cn["cond"], stream, env, vt, depth)
                     t = self.walk(fn, cn["then"], stream, env, vt, depth)
                     rest = []
@@ -118,7 +118,7 @@ class Tracer:
                         rest += self.walk(fn, c2, stream, env, vt, depth)
                     out += pre
                     if t or rest:
-                        out.append(["if", self.npath(fn, fn.term(cn["cond"]), env, vt), t, rest])
+                        out.append(self.mk_if(fn, fn.term(cn["cond"]), t, rest, env, vt))
                     return out
                 out += self.walk(fn, c, stream, env, vt, depth)
             return out
@@ -135,8 +135,7 @@ class Tracer:
             e = self.walk(fn, nd["else"], stream, env, vt, depth) if nd.get("else") is not None else []
             if not t and not e:
                 return pre
-            ck = self.npath(fn, fn.term(nd["cond"]), env, vt)
-            return pre + [["if", ck, t, e]]
+            return pre + [self.mk_if(fn, fn.term(nd["cond"]), t, e, env, vt)]
         if k in ("ForStmt", "WhileStmt", "DoStmt"):
             pre = []
             if nd.get("init") is not None:
@@ -174,13 +173,29 @@ class Tracer:
             return []
         return self.expr_tokens(fn, sid, stream, env, vt, depth)
 
+    def mk_if(self, fn, cond, t, e, env, vt):
+        """One spelling for a conditional whose then-branch emits nothing: `if (c) {} else {X}` is `if (!c) {X}`."""
+        if not t and e:
+            from .facts import NEGATED_CMP
+            if cond[0] == "op" and cond[1] in NEGATED_CMP:
+                if cond[1] == "==" and cond[2][0] == "size" and cond[3] == ("const", 0):
+                    cond = ("op", ">", cond[2], cond[3])
+                else:
+                    cond = ("op", NEGATED_CMP[cond[1]], cond[2], cond[3])
+            elif cond[0] == "un" and cond[1] == "!":
+                cond = cond[2]
+            else:
+                cond = ("un", "!", cond)
+            t, e = e, []
+        return ["if", self.npath(fn, cond, env, vt), t, e]
+
     def _ends_in_return(self, fn, sid):
         nd = fn.n(sid)
-        if nd["k"] == "ReturnStmt":
+        if nd["k"] in ("ReturnStmt", "ContinueStmt"):
             return True
         if nd["k"] == "CompoundStmt":
             ks = fn.kids(sid)
-            return bool(ks) and fn.n(ks[-1])["k"] == "ReturnStmt"
+            return bool(ks) and fn.n(ks[-1])["k"] in ("ReturnStmt", "ContinueStmt")
         return False
 
     def calls_postorder(self, fn, eid):
